@@ -75,19 +75,19 @@ theorem wrap_rows {fam : Family} {v : Nat}
 /-- every documented-valid, supported configuration of the grid carries a certificate -/
 theorem grid_wellFormed (c : Cfg) (hin : inGrid c = true) (hdoc : docValid c = true)
     (hsup : supported c = true) : wellFormed c = true := by
-  obtain ⟨fam, variant, filters, rate, maxStride, bos, stem, cpb, middle, upInterp, inCh, heads, fixMid, fixWrap⟩ := c
+  obtain ⟨fam, variant, filters, rate, maxStride, bos, stem, cpb, middle, upInterp, inCh, heads, fixMid, fixWrap, stemKernel⟩ := c
   simp only [inGrid, Bool.and_eq_true, beq_iff_eq, List.all_eq_true, List.contains_iff_mem] at hin
   simp only [docValid, Bool.and_eq_true, List.all_eq_true, decide_eq_true_eq, Bool.not_eq_true',
     List.isEmpty_eq_false_iff] at hdoc
-  obtain ⟨⟨⟨⟨⟨⟨⟨hinCh, hfm⟩, hfw⟩, hheads⟩, hbos⟩, hcpb⟩, hrate⟩, hfam⟩ := hin
+  obtain ⟨⟨⟨⟨⟨⟨⟨⟨hinCh, hfm⟩, hfw⟩, hsk⟩, hheads⟩, hbos⟩, hcpb⟩, hrate⟩, hfam⟩ := hin
   obtain ⟨hne, hd⟩ := hdoc
-  subst hinCh hfm hfw
+  subst hinCh hfm hfw hsk
   apply wellFormed_of_single _ hne
   intro hd' hhd
   obtain ⟨hle, hle2⟩ := hd hd' hhd
   refine ⟨hle, 0, ?_⟩
-  have key : ∀ u, wellFormed (Cfg.mk fam variant filters rate maxStride bos stem cpb middle u 1 [⟨hd'.os, 0⟩] true true) = true := by
-    apply wellFormed_upInterp (Cfg.mk fam variant filters rate maxStride bos stem cpb middle upInterp 1 [⟨hd'.os, 0⟩] true true)
+  have key : ∀ u, wellFormed (Cfg.mk fam variant filters rate maxStride bos stem cpb middle u 1 [⟨hd'.os, 0⟩] true true 4) = true := by
+    apply wellFormed_upInterp (Cfg.mk fam variant filters rate maxStride bos stem cpb middle upInterp 1 [⟨hd'.os, 0⟩] true true 4)
     have hos := hheads hd' hhd
     cases fam with
     | unet =>
